@@ -387,6 +387,108 @@ unsafe impl<P: InnerPixel> ImageViewMut for SimImageNoSplit<P> {
     }
 }
 
+/// Adapter around ANY library container: identical pixels, rows and split behaviour (all
+/// calls are delegated, so the library's own specialised `split_by_*` run), but every row
+/// hand-out is logged, may panic (fault F4) and is a scheduling point. Brings row-granular
+/// pre-emption to the slice-based and offset-composing split implementations.
+pub struct YieldView<V> {
+    pub inner: V,
+    pub id: u8,
+    pub yield_rows: bool,
+    pub panic_at: u64,
+}
+
+impl<V> YieldView<V> {
+    #[inline]
+    fn hand(id: u8, yield_rows: bool, panic_at: u64, mutable: bool) {
+        let n = HANDOUT_COUNTER[(events::current_client() & 3) as usize].fetch_add(1, Ordering::Relaxed) + 1;
+        // rows of a band are numbered relative to the band: logged under image ids 2 / 3,
+        // which the row-tiling oracle ignores
+        events::handout(id + 2, u32::MAX, mutable);
+        if panic_at != 0 && n == panic_at {
+            panic!("{}", INJECTED_PANIC);
+        }
+        if yield_rows {
+            simcore::sched_yield();
+        }
+    }
+    fn wrap<W>(&self, inner: W) -> YieldView<W> {
+        YieldView { inner, id: self.id, yield_rows: self.yield_rows, panic_at: self.panic_at }
+    }
+}
+
+unsafe impl<V: ImageView> ImageView for YieldView<V> {
+    type Pixel = V::Pixel;
+    fn width(&self) -> u32 {
+        self.inner.width()
+    }
+    fn height(&self) -> u32 {
+        self.inner.height()
+    }
+    fn iter_rows(&self, start_row: u32) -> impl Iterator<Item = &[Self::Pixel]> {
+        let (id, y, p) = (self.id, self.yield_rows, self.panic_at);
+        self.inner.iter_rows(start_row).map(move |r| {
+            Self::hand(id, y, p, false);
+            r
+        })
+    }
+    fn iter_rows_with_step(&self, start_y: f64, step: f64, max_rows: u32) -> impl Iterator<Item = &[Self::Pixel]> {
+        let (id, y, p) = (self.id, self.yield_rows, self.panic_at);
+        self.inner.iter_rows_with_step(start_y, step, max_rows).map(move |r| {
+            Self::hand(id, y, p, false);
+            r
+        })
+    }
+    fn split_by_height(
+        &self,
+        start_row: u32,
+        height: std::num::NonZeroU32,
+        num_parts: std::num::NonZeroU32,
+    ) -> Option<Vec<impl ImageView<Pixel = Self::Pixel>>> {
+        self.inner.split_by_height(start_row, height, num_parts).map(|v| v.into_iter().map(|p| self.wrap(p)).collect())
+    }
+    fn split_by_width(
+        &self,
+        start_col: u32,
+        width: std::num::NonZeroU32,
+        num_parts: std::num::NonZeroU32,
+    ) -> Option<Vec<impl ImageView<Pixel = Self::Pixel>>> {
+        self.inner.split_by_width(start_col, width, num_parts).map(|v| v.into_iter().map(|p| self.wrap(p)).collect())
+    }
+}
+
+unsafe impl<V: ImageViewMut> ImageViewMut for YieldView<V> {
+    fn iter_rows_mut(&mut self, start_row: u32) -> impl Iterator<Item = &mut [Self::Pixel]> {
+        let (id, y, p) = (self.id, self.yield_rows, self.panic_at);
+        self.inner.iter_rows_mut(start_row).map(move |r| {
+            Self::hand(id, y, p, true);
+            r
+        })
+    }
+    fn split_by_height_mut(
+        &mut self,
+        start_row: u32,
+        height: std::num::NonZeroU32,
+        num_parts: std::num::NonZeroU32,
+    ) -> Option<Vec<impl ImageViewMut<Pixel = Self::Pixel>>> {
+        let (id, y, p) = (self.id, self.yield_rows, self.panic_at);
+        self.inner
+            .split_by_height_mut(start_row, height, num_parts)
+            .map(|v| v.into_iter().map(|inner| YieldView { inner, id, yield_rows: y, panic_at: p }).collect())
+    }
+    fn split_by_width_mut(
+        &mut self,
+        start_col: u32,
+        width: std::num::NonZeroU32,
+        num_parts: std::num::NonZeroU32,
+    ) -> Option<Vec<impl ImageViewMut<Pixel = Self::Pixel>>> {
+        let (id, y, p) = (self.id, self.yield_rows, self.panic_at);
+        self.inner
+            .split_by_width_mut(start_col, width, num_parts)
+            .map(|v| v.into_iter().map(|inner| YieldView { inner, id, yield_rows: y, panic_at: p }).collect())
+    }
+}
+
 #[allow(dead_code)]
 fn _unused<P>(c: &SimCore<P>) {
     let _ = c.row_mut(0);
@@ -404,6 +506,8 @@ pub enum SrcClass {
     Sim,
     SimNoSplit,
     CropSim,
+    YRef,
+    YCrop,
     DRef,
     DImg,
     DCrop,
@@ -417,6 +521,8 @@ pub enum DstClass {
     Sim,
     SimNoSplit,
     CropSim,
+    YImg,
+    YCrop,
     DImg,
     DCrop,
     DCrop2,
@@ -431,6 +537,8 @@ pub fn src_class(k: Kind) -> SrcClass {
         Kind::Sim => SrcClass::Sim,
         Kind::SimNoSplit => SrcClass::SimNoSplit,
         Kind::CropSim => SrcClass::CropSim,
+        Kind::YSlice => SrcClass::YRef,
+        Kind::YCrop => SrcClass::YCrop,
         Kind::DynSlice => SrcClass::DRef,
         Kind::DynImgAsSrc | Kind::DynOwned => SrcClass::DImg,
         Kind::DynCrop => SrcClass::DCrop,
@@ -445,6 +553,8 @@ pub fn dst_class(k: Kind) -> DstClass {
         Kind::Sim => DstClass::Sim,
         Kind::SimNoSplit => DstClass::SimNoSplit,
         Kind::CropSim => DstClass::CropSim,
+        Kind::YSlice => DstClass::YImg,
+        Kind::YCrop => DstClass::YCrop,
         Kind::DynSlice | Kind::DynOwned | Kind::DynImgAsSrc => DstClass::DImg,
         Kind::DynCrop => DstClass::DCrop,
         Kind::DynCrop2 => DstClass::DCrop2,
@@ -469,6 +579,8 @@ pub fn pair_ok(s: Kind, d: Kind) -> bool {
             | (S::SimNoSplit, D::Img)
             | (S::Ref, D::SimNoSplit)
             | (S::CropSim, D::CropSim)
+            | (S::YRef, D::YImg)
+            | (S::YCrop, D::YCrop)
             | (S::DRef, D::DImg)
             | (S::DImg, D::DImg)
             | (S::DCrop, D::DImg)
@@ -656,6 +768,26 @@ pub fn with_typed2<P: PixelTrait, R, O: TypedOp2<P, R>>(
             let mut d = TypedCroppedImageMut::new(dp, dg.ox, dg.oy, dg.w, dg.h).unwrap();
             op.call(&s, &mut d)
         }
+        (S::YRef, D::YImg) => {
+            let s = YieldView { inner: src_ref::<P>(si, sb), id: 0, yield_rows: si.yield_rows, panic_at: si.panic_at };
+            let (y, pa) = (di.yield_rows, di.panic_at);
+            with_dst_img::<P, R>(di, db, |d| unsafe {
+                // the adapter owns a view of the same pixels
+                let inner = std::ptr::read(d as *const TypedImage<P>);
+                let mut yv = std::mem::ManuallyDrop::new(YieldView { inner, id: 1, yield_rows: y, panic_at: pa });
+                op.call(&s, &mut *yv)
+            })
+        }
+        (S::YCrop, D::YCrop) => {
+            let p = src_ref::<P>(si, sb);
+            let s = YieldView { inner: src_crop::<P>(si, sb, &p), id: 0, yield_rows: si.yield_rows, panic_at: si.panic_at };
+            let (y, pa) = (di.yield_rows, di.panic_at);
+            with_dst_crop::<P, R>(di, db, |d| unsafe {
+                let inner = std::ptr::read(d as *const TypedCroppedImageMut<TypedImage<P>>);
+                let mut yv = std::mem::ManuallyDrop::new(YieldView { inner, id: 1, yield_rows: y, panic_at: pa });
+                op.call(&s, &mut *yv)
+            })
+        }
         (a, b) => panic!("harness: view pair {:?}/{:?} is not compiled in", a, b),
     }
 }
@@ -684,6 +816,22 @@ pub fn with_typed1<P: PixelTrait, R, O: TypedOp1<P, R>>(di: &Img, db: &mut Backi
             let dp = SimImage(sim_core::<P>(db, di, 1));
             let mut d = TypedCroppedImageMut::new(dp, dg.ox, dg.oy, dg.w, dg.h).unwrap();
             op.call(&mut d)
+        }
+        D::YImg => {
+            let (y, pa) = (di.yield_rows, di.panic_at);
+            with_dst_img::<P, R>(di, db, |d| unsafe {
+                let inner = std::ptr::read(d as *const TypedImage<P>);
+                let mut yv = std::mem::ManuallyDrop::new(YieldView { inner, id: 1, yield_rows: y, panic_at: pa });
+                op.call(&mut *yv)
+            })
+        }
+        D::YCrop => {
+            let (y, pa) = (di.yield_rows, di.panic_at);
+            with_dst_crop::<P, R>(di, db, |d| unsafe {
+                let inner = std::ptr::read(d as *const TypedCroppedImageMut<TypedImage<P>>);
+                let mut yv = std::mem::ManuallyDrop::new(YieldView { inner, id: 1, yield_rows: y, panic_at: pa });
+                op.call(&mut *yv)
+            })
         }
         b => panic!("harness: typed view {:?} is not compiled in", b),
     }
